@@ -3,82 +3,22 @@ package main
 import (
 	"bytes"
 	"fmt"
+	"strings"
 
+	"github.com/facebookincubator/dns/dnsrocks/dnsdata"
 	"github.com/facebookincubator/dns/dnsrocks/dnsdata/svcb"
 )
 
-func try(s string) {
-	defer func() {
-		if r := recover(); r != nil {
-			fmt.Printf("  PANIC %v\n", r)
-		}
-	}()
+func main() {
+	s := "ipv6hint=" + strings.Repeat("::|", 4095) + "::;port=80"
 	var l svcb.ParamList
 	err := l.FromText([]byte(s))
-	show := s
-	if len(show) > 60 {
-		show = show[:60] + "..."
-	}
-	fmt.Printf("%q -> err=%v\n", show, err)
-	if err != nil {
-		return
-	}
 	var w bytes.Buffer
 	l.ToWire(&w)
-	wb := w.Bytes()
-	if len(wb) > 40 {
-		wb = wb[:40]
-	}
-	fmt.Printf("  wire(%d)=%v\n", w.Len(), wb)
-	var t bytes.Buffer
-	l.ToText(&t)
-	tb := t.Bytes()
-	if len(tb) > 80 {
-		tb = tb[:80]
-	}
-	fmt.Printf("  text(%d)=%q\n", t.Len(), tb)
-	var l2 svcb.ParamList
-	err = l2.FromText(t.Bytes())
-	var w2 bytes.Buffer
-	if err == nil {
-		l2.ToWire(&w2)
-	}
-	fmt.Printf("  reparse err=%v same=%v\n", err, bytes.Equal(w.Bytes(), w2.Bytes()))
-}
-
-func main() {
-	try("alpn=h2|")
-	try("alpn=\"\"")
-	try("alpn=" + string(bytes.Repeat([]byte("a"), 256)))
-	try("alpn=" + string(bytes.Repeat([]byte("a"), 300)))
-	try("alpn=" + string(bytes.Repeat([]byte{2}, 258)))
-	try("alpn=h2;;port=zzz")
-	try("ipv6hint=::ffff:1.2.3.4")
-	try("ipv4hint=::ffff:1.2.3.4")
-	try("ipv4hint=1.2.3.4|")
-	try("port=+80")
-	try("port=080")
-	try("port=65536")
-	try("port=\"\"")
-	try("echconfig=\"\"")
-	try("echconfig=YQ==")
-	try("echconfig=YQ")
-	try("echconfig=YQ==\n")
-	try("echconfig=Y\nQ==")
-	try("echconfig=YR==")
-	try("no-default-alpn=\"\"")
-	try("no-default-alpn")
-	try("=x")
-	try("alpn==")
-	try("alpn=a\"b")
-	try("alpn=\"a\"|\"b\"")
-	try("mandatory=\"alpn\";alpn=\"\"\"h2\"\"\"")
-	try("ipv6hint=1::2%eth0")
-	try("ipv6hint=0:0:0:0:0:ffff:102:304")
-	try("ipv4hint=001.2.3.4")
-	try("ipv6hint=::1.2.3.4")
-	try("")
-	try(";alpn=h2")
-	try("mandatory=port|mandatory|foo")
-	try("mandatory=alpn|alpn|foo;alpn=h2")
+	fmt.Println(len(s), err, w.Len(), w.Bytes()[:8])
+	c := new(dnsdata.Codec)
+	mr, err := c.ConvertLn([]byte("Hexample.com,svc.example.net,300,,1,alpn=h2;port=443"))
+	fmt.Println(mr, err)
+	mr, err = c.ConvertLn([]byte("Hexample.com,.,300,,1," + s))
+	fmt.Println(len(mr), err, len(mr[0].Value))
 }
